@@ -1,4 +1,8 @@
 """C10 - private tables are isolated from the public table and from each other."""
+from contracts import wrappers as W
+from contracts import core as K
+from contracts import grammar as G
+from contracts import nsf as N
 ID = "C10"
 LEVEL = "other"
 TRUSTED = ["events run on CPython itself in fresh interpreters", "digests as in C09, computed for the public and two private tables",
@@ -8,11 +12,15 @@ EXPLANATION = ("Closed step obligations (eval): for each of the nine property mo
                "interpreters: T serves the canonical values, the public table still reaches the canonical digest, a second "
                "private table is unchanged. shared_mutables: sets of id() of mutable objects reachable from the per-atom state "
                "of any two tables are disjoint. formula_routing: every grammar route with table=T yields only atoms of T, one "
-               "grammar per table, pickles restore into T. Bounded: sampled interleavings. No SMT obligations (see C09).")
+               "grammar per table, pickles restore into T. Bounded: sampled interleavings. SMT obligations only for the value-level "
+               "routing functions (core.change_table, Formula.change_table, parse_formula's per-table grammar cache, table lookups); "
+               "the loader protocol (delayed_load) has none (see C09).")
 
 
 def units(tier):
-    return []
+    # the functions that carry a table through the formula layer: which table an atom is taken from is a value-level
+    # question and is under contract; the loader protocol itself is not (see EXPLANATION)
+    return [W.U_FORMULA_CHANGE_TABLE, K.U_CHANGE_TABLE] + G.U_PARSE_FORMULA + K.U_TABLE_ISOTOPE + [K.U_SYMBOL]
 
 
 def runner_tasks(tier):
